@@ -405,6 +405,23 @@ class Bus:
         if how == "rst":
             # a reset socket fails writes at once: keep that out of the fault-free workloads (C11 explores it)
             self.settle()
+        if how == "eof" and c.healthy and (S.seed + S.stats["end_eof"]) % 3 == 0 and not c.pending:
+            # last words: a request directly followed by the end of the stream, both waiting when the daemon looks (one readiness
+            # event may carry both): the request is still carried out and answered - the client only stopped SENDING
+            self.settle()
+            own = [e for e in self.own_elems(c) if e.is_state]
+            if own and (S.seed + S.stats["end_eof"]) % 2:
+                lw = S.request(c, "change", {"path": own[0].path, "value": S.next_val(c)})
+            else:
+                lw = S.request(c, "info")
+            self.note("last-words-then-eof", c.name, lw.method)
+            S.end(c, "eof")
+            self.settle()
+            S.stats["last_words"] += 1
+            S.sig("last-words", lw.method, c.transport)
+            if lw.state == "sent" and not (S.alloc_faults or S.sys_faults or S.inject_active):
+                S.v("rpc/request-directly-in-front-of-the-end-of-stream-not-answered", "%s on %s (%s)" % (lw.method, c.name, c.transport))
+            return
         self.note("end", c.name, how)
         S.end(c, how)
         if how == "rst":
